@@ -5,7 +5,7 @@ build against a table left over from another tree.  Exit 1 and a line per proble
 import collections, glob, json, os, re, subprocess, sys
 ROOT = os.path.dirname(os.path.dirname(os.path.abspath(__file__)))
 COQ = os.path.join(ROOT, "coq")
-TARGET_FILE = {"headers": "Headers", "keyid": "KeyIdImpls", "pae": "PaeSites", "macs": "MacSites", "kdf": "KdfSites", "ciphers": "Ciphers", "panics": "PanicSites",
+TARGET_FILE = {"headers": "Headers", "keyid": "KeyIdImpls", "pae": "PaeSites", "macs": "MacSites", "kdf": "KdfSites", "writers": "Writers", "ciphers": "Ciphers", "panics": "PanicSites",
                "guards": "Guards", "impls": "Impls", "aliases": "Aliases", "sharing": "Sharing", "features": "Features"}
 subprocess.run("make .Makefile.d >/dev/null 2>&1", shell=True, cwd=COQ)
 deps = collections.defaultdict(set)
